@@ -26,6 +26,9 @@ type Checker struct {
 	emits   int
 	ord     map[ssa.Instruction]string
 	narrow  map[string]string
+	// Unroll / UnrollFor: trip counts explored for loops over lists of structures (bit-level mode)
+	Unroll    []int
+	UnrollFor func(f *ssa.Function, elem types.Type) []int
 }
 
 // New creates the engine.
@@ -53,6 +56,26 @@ func NewBits(p *load.Program) *Checker {
 	// sub-writers would otherwise pair every calculator outcome with every sub-writer outcome
 	c.IP.InlineCalls = true
 	c.IP.MaxOut = 40000
+	// loops over lists of structures are explored by exact unrolling for the lengths in Unroll (their bodies are
+	// then checked on symbolic elements); byte-counting loops (stuffing, padding) stay summarised
+	c.Unroll = []int{0, 1, 2}
+	c.IP.UnrollCount = func(f *ssa.Function, bound ssa.Value) []int {
+		call, ok := bound.(*ssa.Call)
+		if !ok {
+			return nil
+		}
+		if b, isB := call.Call.Value.(*ssa.Builtin); !isB || b.Name() != "len" || len(call.Call.Args) != 1 {
+			return nil
+		}
+		sl, isSl := call.Call.Args[0].Type().Underlying().(*types.Slice)
+		if !isSl || isByteType(sl.Elem()) {
+			return nil
+		}
+		if c.UnrollFor != nil {
+			return c.UnrollFor(f, sl.Elem())
+		}
+		return c.Unroll
+	}
 	return c
 }
 
